@@ -27,6 +27,7 @@ type Unit struct {
 	EffectsOn  bool
 	Alias      map[string]aliasSpec
 	MapKeys    map[string]string // rendered map expression ranged over -> oracle parameter holding its keys
+	TypeNames  map[string]LT     // per-unit Go type -> Lean type (for map literals), overriding goTypeNames
 	failed     string            // set when the unit turned out not to be translatable
 }
 
@@ -142,7 +143,6 @@ func init() {
 	}
 	createCalls := map[string]callSpec{
 		"sdk.UnwrapSDKContext":             {Value: V{"()", "SdkCtx"}},
-		"sdkCtx.BlockTime":                 {Value: V{"now__", "Time"}},
 		"k.AuctionSeq.Next":                {Value: V{"(nextId__, false)", "(Int × Err)"}},
 		"k.PayCreationFee":                 {Effect: "payCreationFee", Args: []int{1}},
 		"k.ReserveSellingCoin":             {Effect: "reserveSellingCoin", Args: []int{1, 2, 3}},
@@ -200,15 +200,13 @@ func init() {
 		Unit{Group: "Settle", Name: "ExecuteStandByStatus", Pkg: keeperP, Recv: "Keeper", RecvLean: "Keeper", Func: "ExecuteStandByStatus",
 			Params: mk(kctx, []gparam{{Go: "auction", T: "Auction"}, {Go: "now__", T: "Time", Oracle: true}}), Ret: []LT{"Err"}, EffectsOn: true,
 			Calls: map[string]callSpec{
-				"sdk.UnwrapSDKContext(ctx).BlockTime": {Value: V{"now__", "Time"}},
-				"k.Auction.Set":                       {Effect: "auctionSet", Args: []int{1, 2}},
+				"k.Auction.Set": {Effect: "auctionSet", Args: []int{1, 2}},
 			}},
 		Unit{Group: "Settle", Name: "ExecuteStartedStatus", Pkg: keeperP, Recv: "Keeper", RecvLean: "Keeper", Func: "ExecuteStartedStatus",
 			Params: mk(kctx, []gparam{{Go: "auction", T: "Auction"}, {Go: "now__", T: "Time", Oracle: true}}), Ret: []LT{"Err"}, EffectsOn: true,
 			Calls: map[string]callSpec{
-				"sdk.UnwrapSDKContext(ctx).BlockTime": {Value: V{"now__", "Time"}},
-				"k.CloseFixedPriceAuction":            {Effect: "closeFixed", Args: []int{1}},
-				"k.CloseBatchAuction":                 {Effect: "closeBatch", Args: []int{1}},
+				"k.CloseFixedPriceAuction": {Effect: "closeFixed", Args: []int{1}},
+				"k.CloseBatchAuction":      {Effect: "closeBatch", Args: []int{1}},
 			}},
 		Unit{Group: "Settle", Name: "BeginBlocker", Pkg: keeperP, Recv: "Keeper", RecvLean: "Keeper", Func: "BeginBlocker",
 			Params: mk(kctx, []gparam{{Go: "auctions__", T: "List Auction", Oracle: true}}), Ret: []LT{"Err"}, EffectsOn: true,
@@ -264,11 +262,10 @@ func init() {
 			Params: mk(kctx, []gparam{{Go: "auction", T: "Auction"}, {Go: "vqs__", T: "List VQ", Oracle: true}, {Go: "now__", T: "Time", Oracle: true}}),
 			Ret:    []LT{"Err"}, EffectsOn: true,
 			Calls: map[string]callSpec{
-				"k.GetVestingQueuesByAuctionId":       {Value: V{"(vqs__, false)", "(List VQ × Err)"}},
-				"sdk.UnwrapSDKContext(ctx).BlockTime": {Value: V{"now__", "Time"}},
-				"k.bankKeeper.SendCoins":              {Effect: "sendCoins", Args: []int{1, 2, 3}},
-				"k.VestingQueue.Set":                  {Effect: "vqSet", Args: []int{1, 2}},
-				"k.Auction.Set":                       {Effect: "auctionSet", Args: []int{1, 2}},
+				"k.GetVestingQueuesByAuctionId": {Value: V{"(vqs__, false)", "(List VQ × Err)"}},
+				"k.bankKeeper.SendCoins":        {Effect: "sendCoins", Args: []int{1, 2, 3}},
+				"k.VestingQueue.Set":            {Effect: "vqSet", Args: []int{1, 2}},
+				"k.Auction.Set":                 {Effect: "auctionSet", Args: []int{1, 2}},
 			}},
 	)
 }
@@ -370,4 +367,20 @@ func init() {
 	units = append(units,
 		pay("AllocateSellingCoin", "AllocateSellingCoin", "mInfo.AllocationMap"),
 		pay("RefundPayingCoin", "RefundPayingCoin", "mInfo.RefundMap"))
+}
+
+func init() {
+	units = append(units,
+		// ---- types/genesis.go, types/auction.go: validation of an exported genesis
+		Unit{Group: "Genesis", Name: "Bid_Validate", Pkg: typesP, Recv: "Bid", RecvLean: "Bid", Func: "Validate",
+			Params: []gparam{{Go: "b", T: "Bid"}}, Ret: []LT{"Err"}},
+		Unit{Group: "Genesis", Name: "VestingQueue_Validate", Pkg: typesP, Recv: "VestingQueue", RecvLean: "VQ", Func: "Validate",
+			Params: []gparam{{Go: "q", T: "VQ"}}, Ret: []LT{"Err"}},
+		Unit{Group: "Genesis", Name: "BaseAuction_Validate", Pkg: typesP, Recv: "BaseAuction", RecvLean: "Auction", Func: "Validate",
+			Params: []gparam{{Go: "ba", T: "Auction"}}, Ret: []LT{"Err"}},
+		Unit{Group: "Genesis", Name: "GenesisState_Validate", Pkg: typesP, Recv: "GenesisState", RecvLean: "GenesisG", Func: "Validate",
+			Params: []gparam{{Go: "gs", T: "GenesisG"}}, Ret: []LT{"Err"},
+			Calls:     map[string]callSpec{"UnpackAuction": {Value: V{"(%1, false)", "(Auction × Err)"}}},
+			TypeNames: map[string]LT{"string": "Key", "struct{}": "Unit"}},
+	)
 }
